@@ -747,6 +747,10 @@ void SchemaValidator::validateElement(const   XMLElementDecl*  elemDef)
         fErrorOccurred = true;
     }
 
+    // xsi:nil has been looked at for this element; it must not be taken
+    // for an attribute of the next element
+    fNilFound = false;
+
     fDatatypeBuffer.reset();
     fTrailing = false;
     fSeenNonWhiteSpace = false;
